@@ -152,7 +152,7 @@ package aspect_elimination
 //@   requires [parameters] typeis(dmp.MethodParameters, AspectEliminationHeuristicParams)
 //@   requires [distinct_alternatives] distinctIds(dmp.ConsideredAlternatives)
 //@   returnhint [level_source_named_in_the_request] len(params.Function) > 0 && exists k int :: 0 <= k && k < len(a.functions) && satisfaction_levels.sourceName(a.functions[k]) == params.Function
-//@             && satisfactionLevels == satisfaction_levels.blankOf(a.functions[k]) && forall j int :: 0 <= j && j < k ==> satisfaction_levels.sourceName(a.functions[j]) != params.Function
+//@             && satisfaction_levels.madeBy(satisfactionLevels, a.functions[k]) && forall j int :: 0 <= j && j < k ==> satisfaction_levels.sourceName(a.functions[j]) != params.Function
 //@   returnhint [considered_alternatives_in_the_requested_order] len(*alternatives) == len(dmp.ConsideredAlternatives)
 //@             && (!params.RandomAlternativesOrdering ==> forall k int :: 0 <= k && k < len(dmp.ConsideredAlternatives) ==> (*alternatives)[k] == dmp.ConsideredAlternatives[k])
 //@   returnhint [criteria_by_the_requested_weights_heaviest_first] len(weights) == len(dmp.Criteria)
@@ -190,3 +190,15 @@ package aspect_elimination
 //@ wire AspectEliminationHeuristicParams
 //@   property C01 C12 C20
 //@   json Function=function Params=params RandomSeed=randomSeed Weights=weights RandomAlternativesOrdering=randomAlternativesOrdering
+
+// ---- registered names (what a request must say to select this object; what error messages list)
+//@ func (*AspectEliminationBiasListener).Identifier
+//@   property C07 C20
+//@   nopanic
+//@   ensures [name] result == "aspectEliminationHeuristic"
+
+// ---- registered names (what a request must say to select this object; what error messages list)
+//@ func (*AspectEliminationHeuristic).Identifier
+//@   property C01 C12 C20
+//@   nopanic
+//@   ensures [name] result == "aspectEliminationHeuristic"
